@@ -1,9 +1,9 @@
 #!/bin/bash
-# usage: selftest/sweep.sh <tier> <seed> [<seed> ...]   - runs every registered check, prints one status line each
+# usage: [CHECKS="C03 C14"] selftest/sweep.sh <tier> <seed> [<seed> ...]   - runs every registered check (or $CHECKS), prints one status line each
 TIER="$1"; shift
 cd "$(dirname "$0")/.."   # (the copy this script belongs to: /verif, or a vp-run snapshot)
 for s in "$@"; do
-  for p in C01 C02 C03 C04 C05 C06 C07 C08 C09 C10 C11 C12 C13 C14 C15 C16 C17 C18 C19 C20; do
+  for p in ${CHECKS:-C01 C02 C03 C04 C05 C06 C07 C08 C09 C10 C11 C12 C13 C14 C15 C16 C17 C18 C19 C20}; do
     t0=$(date +%s)
     VERIF_EVIDENCE_DIR=/tmp/sweep_evid VERIF_REPLAY_DIR=/tmp/sweep_replays VERIF_SEED=$s ./check $p --tier $TIER > /tmp/sweep_${TIER}_$p.log 2>&1; rc=$?
     t1=$(date +%s)
